@@ -165,6 +165,8 @@ CLI_ITEMS = [
     ("cli/total", ["2001-01-01T00Z", "2002-01-01T00Z", "--as-total", "H"]),
     ("cli/rec", ["R3/2000-02-28T00Z/P1D", "--max=3"]),
     ("cli/format", ["2000-12-30T00Z", "-f", "CCYY-DDD", "--offset", "P1D"]),
+    ("cli/ref", ["ref", "--ref", "2000-02-28T00:00:00Z", "--offset", "P2D"]),
+    ("cli/ref-diff", ["ref", "2000-03-01T00Z", "-R", "20000201T00Z"]),
     ("cli/epoch", ["--parse-format=%s", "951782400", "--utc",
                    "--print-format=CCYY-MM-DDThh"]),
     ("cli/print-epoch", ["2000-03-01T00Z", "--print-format=%s %j"]),
